@@ -24,6 +24,10 @@ pub mod streaming;
 pub mod tcp;
 pub mod versioning;
 
+/// Verification hook (feature `iggy_verif` only): the wire-level command decoder.
+#[cfg(feature = "iggy_verif")]
+pub use command::ServerCommand;
+
 const VERSION: &str = env!("CARGO_PKG_VERSION");
 const IGGY_ROOT_USERNAME_ENV: &str = "IGGY_ROOT_USERNAME";
 const IGGY_ROOT_PASSWORD_ENV: &str = "IGGY_ROOT_PASSWORD";
